@@ -29,13 +29,15 @@ TReturnErr == /\ R.event = "Return" /\ R.result = "err" /\ ~skipping
 TTampered == /\ R.event = "Tampered"
              /\ UNCHANGED <<sigvars, skipping>>
              /\ Step(R.verify # "panic" /\ ((R.parse_ok /\ R.value_changed) => R.verify = "err"))
-TOther == /\ R.event \notin {"Begin", "Consult", "Return", "Tampered"} \/ (skipping /\ R.event \in {"Consult", "Return"})
+\* a carrier the harness could not use (nothing is claimed about it here)
+TSkipped == R.event = "CarrierSkipped" /\ UNCHANGED <<sigvars, skipping>> /\ Step(TRUE)
+TOther == /\ R.event \notin {"Begin", "Consult", "Return", "Tampered", "CarrierSkipped"} \/ (skipping /\ R.event \in {"Consult", "Return"})
              \/ (R.event = "Return" /\ R.result \notin {"ok", "err"})
           /\ UNCHANGED sigvars
           /\ IF skipping /\ R.event \in {"Consult", "Return"} THEN UNCHANGED skipping /\ Step(TRUE)
              ELSE skipping' = TRUE /\ Step(FALSE)          \* panic or unknown event: abandon the episode
 
-Next == l <= N /\ (TBegin \/ TConsult \/ TReturnOk \/ TReturnErr \/ TTampered \/ TOther)
+Next == l <= N /\ (TBegin \/ TConsult \/ TReturnOk \/ TReturnErr \/ TTampered \/ TSkipped \/ TOther)
 Spec == Init /\ [][Next]_vars
 Finished == (l = N + 1) => WriteVerdict(rej, nrej)
 =============================================================================
